@@ -146,7 +146,44 @@ func VerifH_C16_slice_write() {
 	vm.Set("x", x)
 	idx := verifChoose(6) // 3 is one past the end (append), 4 and 5 leave a gap
 	vm.Set("i", idx)
-	switch verifChoose(6) {
+	switch verifChoose(7) {
+	case 6: // a string written into an integer element: ToNumber, then the same check as for a number
+		n := 1 + verifChoose(2)
+		str := verifNondetString(n)
+		for i := 0; i < n; i++ {
+			verifAssume(str[i] == 'x' || str[i] == '.' || str[i] == '-' || (str[i] >= '0' && str[i] <= '9'))
+		}
+		vm.Set("str", str)
+		sl := []int16{7, 8}
+		vm.Set("sl", sl)
+		var err error
+		kind, _ := verifCatch(func() { _, err = vm.Run("sl[0] = str") })
+		verifCover("reached")
+		verifAssert(kind == verifNormal, "no Go panic")
+		if kind == verifNormal && err == nil {
+			// stored: then the string must denote exactly that integer
+			exact := true
+			val := 0
+			start := 0
+			if str[0] == '-' {
+				start = 1
+			}
+			if start >= n {
+				exact = false
+			}
+			for i := start; i < n; i++ {
+				if str[i] < '0' || str[i] > '9' {
+					exact = false
+				} else {
+					val = val*10 + int(str[i]-'0')
+				}
+			}
+			if start == 1 {
+				val = -val
+			}
+			verifAssertK(exact && int(sl[0]) == val, "C16-non-number-into-integer-silently-zero", !exact, "a string stored into an integer element denotes exactly that integer (otherwise the write is refused)")
+		}
+		return
 	case 5: // elements of a kind no number converts to: the write is refused loudly
 		one := int8(1)
 		sl := []*int8{&one, nil}
